@@ -356,20 +356,45 @@ def _big_programs(tier):
         yield Sized('big/nested/%s/%d/%d' % (cn, n1, n2), (lambda k, c=c, cn=cn, n1=n1: mkprog('big/nested/%s' % cn, [If(c(), Block(nops(n1 if k > 6 else 3) + [If(B('>', V('vc'), V('vd')), Block([A(V('vc'), C(9))] + nops(k)))])), A(V('vd'), C(7))])), n2)
 
 
+class Plain:
+    """a program checked for displacements and sizes only (its body is real code, so there is no short-body twin)"""
+    def __init__(self, p): self.pid, self.p = p.pid, p
+    def big(self): return self.p.c()
+
+
+def window_programs(tier):
+    """a forward branch over / a backward branch around n copies of a statement whose instructions use the less common addressing
+    modes (abs,Y where no zp,Y form exists; indirect; 16-bit elements), n swept across the short-branch limit: the repair decision
+    rests on the recorded size of every instruction in between"""
+    Y, X = V('Y'), V('X')
+    fillers = [('aY', lambda: A(Index('brr', Y), Index('arr', Y))), ('wY', lambda: A(V('wa'), Index('warr', Y))), ('wX', lambda: A(V('wa'), Index('warr', X))), ('wY-st', lambda: A(Index('warr', Y), V('wa'))),
+               ('ptrY', lambda: A(V('vd'), Index('pp', Y))), ('incX', lambda: ExprS(Inc('++', False, Index('arr', X)))), ('w-add', lambda: A(V('wa'), V('wb'), '+=')), ('X=aY', lambda: A(X, Index('arr', Y))), ('aY=X', lambda: A(Index('arr', Y), X)),
+               ('cmpY', lambda: If(B('==', Index('arr', Y), C(3)), A(V('vd'), C(1))))]
+    for (fn, f), n in itertools.product(fillers, range(6, 36)):
+        if tier == 'quick' and n % 2: continue
+        yield Plain(mkprog('window/%s/if/%d' % (fn, n), [If(B('==', V('va'), V('vb')), Block([f() for _ in range(n)])), A(V('vc'), C(1))]))
+        yield Plain(mkprog('window/%s/dowhile/%d' % (fn, n), [A(V('sc'), C(2)), DoWhile(Block([f() for _ in range(n)] + [ExprS(Inc('--', False, V('sc')))]), V('sc'))]))
+        if n % 4 == 0: yield Plain(mkprog('window/%s/le/%d' % (fn, n), [If(B('<=', V('va'), V('vb')), Block([f() for _ in range(n)]), A(V('vc'), C(2)))]))
+
+
 def check_big(rep, tier, st):
     from equiv import Session
     from sym6502 import AsmError, Unsupported as U2
     progs = list(big_programs(tier))
-    reqs = [('%s@%s' % (p.pid, l), [l], p.big()) for p in progs for l in ('-O1', '-O0')]
+    wins = list(window_programs(tier))
+    reqs = [('%s@%s' % (p.pid, l), [l], p.big()) for p in progs + wins for l in ('-O1', '-O0')]
     R = common.compile_many(reqs)
-    for p in progs:
+    for p in progs + wins:
         for l in ('-O1', '-O0'):
             c = R['%s@%s' % (p.pid, l)]
             if c.status != 'ok': st['big_rejected'] += 1; continue
             try:
                 v = Session().variant(c)
             except (AsmError, U2) as e:
-                rep.inconc('big program %s does not assemble: %s' % (p.pid, e)); continue
+                if 'branch out of range' in str(e):
+                    rep.violation('disp:%s@%s' % (p.pid, l), '%s (%s): %s' % (p.pid, l, e), dict(kind='tv-disp', source=p.big(), args=[l], msg=str(e)))
+                else: rep.inconc('big program %s does not assemble: %s' % (p.pid, e))
+                continue
             st['big_programs'] += 1
             for f in v.prog.func_range:
                 for ins, d in v.prog.branch_displacements(f):
